@@ -547,6 +547,36 @@ class Pipelines(Stream):
             for other in ms + [mk_mask(rand_guarded(__import__("random").Random(len(case["masks"])), 1))]:
                 _ = base & other, base | other, ~base, other & base
             out["mask_reuse"] = str(NT()(sc, on=base)) == before and str(NT()(sc, on=ms[0] & ms[-1])) == before
+            # a chord-level transformer whose action returns several chords: the result is one flat score, also inside a pipeline
+            from musiclang.transform import ChordTransformer, NoteFilter, MelodyFilter
+            from musiclang import Chord as _Chord
+            class Twice(ChordTransformer):
+                def action(self, chord, **kw):
+                    return chord + chord.o(1)
+            tw = Twice()(sc)
+            flat = all(isinstance(c, _Chord) for c in tw.chords)
+            want_tw = [x for c in sc.chords for x in (str(c), str(c.o(1)))]
+            out["multi_chord"] = flat and [str(c) for c in tw.chords] == want_tw
+            if flat:
+                tp2 = TransformPipeline([("t", Twice()), ("n", NT())])(sc)
+                out["multi_chord"] = out["multi_chord"] and all(isinstance(c, _Chord) for c in tp2.chords) and len(tp2.chords) == 2 * len(sc.chords)
+            # user-defined filters: exactly the notes / melodies that satisfy the predicate are kept
+            class LongNotes(NoteFilter):
+                def filter(self, note, **kw):
+                    return note.duration >= 1
+            class ShortMelodies(MelodyFilter):
+                def filter(self, melody, **kw):
+                    return len(melody.notes) <= 2
+            kept = LongNotes()(sc)
+            want_notes = [[[str(n) for n in mel.notes if n.duration >= 1] for mel in ch.score.values()] for ch in sc.chords]
+            got_notes = [[[str(n) for n in mel.notes] for mel in ch.score.values()] for ch in kept.chords] if kept is not None else None
+            want_notes = [[m for m in ch if m] for ch in want_notes]
+            keptm = ShortMelodies()(sc)
+            want_mels = [[nm for nm, mel in ch.score.items() if len(mel.notes) <= 2] for ch in sc.chords]
+            got_mels = [list(ch.score.keys()) for ch in keptm.chords] if keptm is not None else None
+            squeeze = lambda x: None if x is None else [c2 for c2 in ([m for m in c if m] for c in x) if c2]      # empty parts / chords may be kept or dropped
+            out["filters"] = [squeeze(got_notes) == squeeze(want_notes), squeeze(got_mels) == squeeze(want_mels)]
+            out["filters_detail"] = f"notes {got_notes} expected {want_notes}; melodies {got_mels} expected {want_mels}"[:400]
             # library transform keeps the rhythm
             name = case["lib"]
             tr = {"TransposeDiatonic": lambda: lib.TransposeDiatonic(1), "TransposeChromatic": lambda: lib.TransposeChromatic(2),
@@ -578,6 +608,10 @@ class Pipelines(Stream):
             return {"sig": "concat-pipeline-not-append", "msg": ""}
         if not r["mask_reuse"]:
             return {"sig": "mask-changed-by-combination", "msg": "a mask selects other elements after it was combined with another mask"}
+        if not r["multi_chord"]:
+            return {"sig": "chord-transformer-returning-several-chords-not-flat", "msg": "a chord transformer whose action returns two chords does not give one flat score of chords"}
+        if not all(r["filters"]):
+            return {"sig": "user-filter-selection:" + ("note" if not r["filters"][0] else "melody"), "msg": r["filters_detail"]}
         if not r["rhythm"]:
             return {"sig": f"library-transform-changes-rhythm:{case['lib']}", "msg": r["detail"]}
         return None
